@@ -101,12 +101,15 @@ check("C06",
       "Exploration: logical archives x 24 layout features from an independent reference writer, validated by the "
       "strict reader, then read by py7zr (listing, metadata, extraction to a factory AND to a directory) and compared "
       "member by member; plus all decodable fixtures. Parse half (Lean, EVERY input of < 2^63 bytes the strict reader "
-      "accepts, no assumption about the writer): reader_refines_spec_number / _boolvector / _packinfo / _unpackinfo - the "
-      "model of py7zr's reader succeeds on the same bytes, stops at the same place and returns the same NUMBERs, bit "
-      "vectors, PackInfo (sizes, with or without CRC section) and UnpackInfo (any folders, simple and complex coders, "
-      "properties, bind pairs, packed indices, unpack sizes, folder CRCs absent / all / partially defined). Partial: "
-      "for SubStreamsInfo and the FilesInfo property loop 'Impl reader = strict reader on valid input' is tied by "
-      "correspondence and exploration, not proved.",
+      "accepts, no assumption about the writer): reader_refines_spec_number / _boolvector / _packinfo / _unpackinfo / "
+      "_subsizes / _streams - the model of py7zr's reader succeeds on the same bytes, stops at the same place and returns "
+      "the same NUMBERs, bit vectors, PackInfo (sizes, with or without CRC section), UnpackInfo (any folders, simple and "
+      "complex coders, properties, bind pairs, packed indices, unpack sizes, folder CRCs absent / all / partially "
+      "defined), SubStreamsInfo (stream counts explicit or omitted, SIZE section present or absent, digest section "
+      "present or absent; the count guard provably never fires on an accepted record) and hence the whole StreamsInfo "
+      "record: everything that decides which bytes a member gets (folders with one result stream; the distribution of "
+      "digests is read but not compared). Partial: for the FilesInfo property loop 'Impl reader = strict reader on "
+      "valid input' is tied by correspondence and exploration, not proved.",
       "Lean 4 refinement proofs (cursor simulates the format's assignment; py7zr's reader model refines the strict reader production by production, by inversion of both parser monads) + strict reference parser + differential correspondence + layout exploration with an independent writer",
       "DESIGN.md §9.3 C06")
 check("C07",
